@@ -67,6 +67,17 @@ def _case(draw):
     case = {"seq": spec, "n": n, "bar": None}
     if as_bar:
         case["bar"] = {"num": num, "den": den, "key": draw(st.one_of(st.none(), st.sampled_from(gens.KEYS)))}
+    elif draw(st.integers(0, 5)) == 0:
+        # "all sequences": not in normal form - a pitch of the pool struck again while it sounds and / or a note-on that is never
+        # closed, added message by message; compared at event level
+        p = draw(st.sampled_from(pitches))
+        t1 = draw(st.integers(0, 40))
+        t2 = t1 + draw(st.integers(1, 20))
+        deco = [["on", 0, p, 80, t1], ["on", 0, p, 90, t2]] if draw(st.booleans()) else [["on", 1, p, 70, t2]]
+        if draw(st.booleans()):
+            deco.append(["off", 0, p, t2 + draw(st.integers(1, 30))])
+        case["deco"] = deco
+        spec["post"] = None if spec.get("post") == "normalise" else spec.get("post")
     elif draw(st.integers(0, 3)) == 0:
         # a history on one object: transpose, then more material arrives (concatenate / in-place pitch edit), then the
         # transposition under test
@@ -87,9 +98,71 @@ def strategy(params, shard, nshards):
     return _case()
 
 
+def _check_event_level(out, case):
+    """sequences that are not in normal form: every clause that can be read off the raw events"""
+    n = case["n"]
+    out.label("not-normal-form")
+    try:
+        seq = build.sequence(dict(case["seq"], extra_abs=case["deco"]))
+        ev0, dur0 = O.seq_events(seq)
+    except Exception as e:
+        out.inconclusive = f"input-construction-raised:{type(e).__name__}"
+        return out
+    note_ev0 = [e for e in ev0 if e[1] in (O.NOTE_ON, O.NOTE_OFF)]
+    pitches0 = [e[3] for e in note_ev0]
+    expect_flag = any(wrap(p + n) != p + n for p in pitches0)
+    out.nontrivial = True
+    out.label("wraps" if expect_flag else "no-wrap")
+    try:
+        flag = seq.transpose(n)
+        rep = build.replica(seq)
+        ev_r, dur_r = O.rel_events(rep.rel)
+        ev_a, dur_a = O.abs_events(rep.abs)
+    except O.Malformed as e:
+        out.fail("malformed-output", str(e))
+        return out
+    except Exception as e:
+        out.fail("transpose-raises", f"{type(e).__name__}: {e}")
+        return out
+    if O.canon((ev_r, dur_r)) != O.canon((ev_a, dur_a)):
+        out.fail("views-disagree", f"rel {O.canon((ev_r, dur_r))} abs {O.canon((ev_a, dur_a))}")
+    if flag is not expect_flag:
+        out.fail("flag", f"transpose({n}) returned {flag!r}, model says {expect_flag} for pitches {sorted(set(pitches0))}")
+    by_ch = {}
+    for e in note_ev0:
+        by_ch.setdefault(e[2], set()).add(wrap(e[3] + n))
+    for e in ev_r:
+        if e[1] in (O.NOTE_ON, O.NOTE_OFF):
+            if not (isinstance(e[3], int) and LO <= e[3] <= HI):
+                out.fail("out-of-range", f"pitch {e[3]} after transpose({n})")
+                break
+            if e[3] not in by_ch.get(e[2], ()):
+                out.fail("not-an-image", f"pitch {e[3]} on channel {e[2]} is no image of {sorted(set(pitches0))} under {n}")
+                break
+    if not expect_flag:
+        want = O.canon(([e if e[1] not in (O.NOTE_ON, O.NOTE_OFF) else e[:3] + (e[3] + n,) + e[4:] for e in ev0
+                         if e[1] != O.KS], dur0))
+        got = O.canon(([e for e in ev_r if e[1] != O.KS], dur_r))
+        if want != got:
+            out.fail("exact-shift", f"n={n}: every note message must move by {n} and nothing else change: want {want} got {got}")
+        elif all(LO <= p <= HI for p in pitches0):
+            try:
+                back = seq.transpose(-n)
+                ev2 = O.seq_events(seq)
+            except Exception as e:
+                out.fail("inverse-raises", f"{type(e).__name__}: {e}")
+                return out
+            if back is not False or O.canon(([e for e in ev2[0] if e[1] != O.KS], ev2[1])) != \
+                    O.canon(([e for e in ev0 if e[1] != O.KS], dur0)):
+                out.fail("inverse", f"transpose({n}) then transpose({-n}) does not restore {ev0}: {ev2[0]}")
+    return out
+
+
 def check(case):
     out = Outcome()
     n = case["n"]
+    if case.get("deco") and not case.get("bar"):
+        return _check_event_level(out, case)
     built = build_input(out, case["seq"])
     if built is None:
         return out
